@@ -93,12 +93,12 @@ def run(prop, tier, seed, replay=None):
             rep.extra['nonvacuity'] = {'truncated_group_silent': 'InvDecl violated as required'}
             # (b) corpora
             kq = [kind('w', sfx=True), kind('(', tag='$('), kind('-LRB-', tag='$[')]
-            kt = kq + [kind(')'), kind(u'Üb"', sfx=True), kind('x' * 8), kind(u'1\u00a00')]
-            m = dict(N=3, MaxCons=2, MaxChain=1) if tier == 'quick' else dict(N=4, MaxCons=2, MaxChain=1)
+            kt = kq + [kind(u'Üb"', sfx=True), kind(u'1\u00a00')]
+            m = dict(N=3, MaxCons=2, MaxChain=1) if tier == 'quick' else dict(N=3, MaxCons=2, MaxChain=2)
             jb = jobs(tier)
             core.gen_module(w, 'MCR', ['MC_Readers'], {
                 'c_TokKinds': core.Raw('{' + ', '.join(core.tla(x) for x in (kq if tier == 'quick' else kt)) + '}'),
-                'c_CLabels': core.Raw('{' + ', '.join(core.tla(ch(x)) for x in (['S-SB-1', 'X#Y'] if tier == 'quick' else ['NP', 'S-SB-1', 'X#Y'])) + '}'),
+                'c_CLabels': core.Raw('{' + ', '.join(core.tla(ch(x)) for x in ['S-SB-1', 'X#Y']) + '}'),
                 'c_CEdges': core.Raw('{' + ', '.join(core.tla(ch(x)) for x in (['HD'] if tier == 'quick' else ['HD', '--'])) + '}'),
                 'c_Jobs': core.Raw('{' + ', '.join(core.tla(j) for j in jb) + '}'),
                 'c_BrTab': cfgc['brtab']})
